@@ -13,6 +13,12 @@ using namespace vf;
 static std::string g_smalltext(Tape &t) {
   static const std::vector<std::string> chunks = {"a", "B", "%41", "%", "%4", "+", " ", "\r\n", "\n", "&", "=", "/", ":", "\\", "\x80", "\xff", "%0D%0A", "z"};
   std::string s;
+  // one text in eight starts with a prefix that software special-cases (literals compared by sizeof / memcmp / strlen are
+  // where byte counts and character counts get mixed up)
+  if (t.chance(1, 8)) {
+    static const std::vector<std::string> pre = {"\\\\?\\C:\\", "\\\\?\\UNC\\", "\\\\localhost\\", "\\\\.\\", "file://localhost/", "file://locations/", "file:///C:/", "file:/", "C:\\", "/", "localhost", "http://"};
+    s = t.pick(pre);
+  }
   int n = t.range(0, 8);
   for (int i = 0; i < n; i++) s += t.pick(chunks);
   return s;
